@@ -422,6 +422,11 @@ def mkCtx (e : Eos α) (d : Data α) (w : Raw α) (xmin xd0 xmax t : α) (nx : N
 def Ctx.node (c : Ctx α) (x : α) : Nat × State α :=
   solveAtNode c.e c.d c.a (prevNode c.G) (nextNode c.G) c.xd0 c.t c.xmaxW x
 
+/-- the wrapper's `np.interp` between the two grid nodes `lo ≤ x < hi` that bracket a user point, given the
+driver's values `sl`, `sh` at those nodes; the index is that of `lo` -/
+def userAt (sl sh : Nat × State α) (lo hi x : α) : Nat × State α :=
+  if Num.beq lo x then sl else (sl.1, lerpS x lo hi sl.2 sh.2)
+
 /-- `GenEOS_Solver._run`: `interp(x, self.x, self.p)` … at one user point; the index is that of the grid
 node at or left of the point -/
 def Ctx.user (c : Ctx α) (x : α) : Nat × State α :=
@@ -435,8 +440,7 @@ def Ctx.user (c : Ctx α) (x : α) : Nat × State α :=
     | [] => c.node lo
     | h :: hs =>
       let hi := listMin hs h
-      let sl := c.node lo
-      if Num.beq lo x then sl else (sl.1, lerpS x lo hi sl.2 (c.node hi).2)
+      userAt (c.node lo) (c.node hi) lo hi x
 
 end
 
